@@ -151,8 +151,10 @@ class SearchCriteria(metaclass=ABCMeta):
         elif key_name == b'HEADER':
             name, value = key.filter_header
             return HeaderSearchCriteria(name, value, params)
-        elif key_name in (b'BODY', b'TEXT'):
-            return BodySearchCriteria(key.filter_str, params)
+        elif key_name == b'BODY':
+            return BodySearchCriteria(key.filter_str, False, params)
+        elif key_name == b'TEXT':
+            return BodySearchCriteria(key.filter_str, True, params)
         raise SearchNotAllowed(key)
 
 
@@ -427,12 +429,17 @@ class HeaderSearchCriteria(SearchCriteria):
 
 
 class BodySearchCriteria(SearchCriteria):
-    """Matches if the message body contains a value."""
+    """Matches if the message body, and for ``TEXT`` also the message header,
+    contains a value.
 
-    def __init__(self, value: str, params: SearchParams) -> None:
+    """
+
+    def __init__(self, value: str, header: bool,
+                 params: SearchParams) -> None:
         super().__init__(params)
         self.value = bytes(value, 'utf-8', 'replace')
+        self.header = header
 
     def matches(self, msg_seq: int, msg: MessageInterface,
                 loaded_msg: LoadedMessageInterface) -> bool:
-        return loaded_msg.contains(self.value)
+        return loaded_msg.contains(self.value, self.header)
